@@ -138,7 +138,7 @@ def triples_stream_frames(
                 yield frame
         if frame := stream.flow.frame_from_graph():
             yield frame
-    if stream.stream_types.flat and (frame := stream.flow.to_stream_frame()):
+    if frame := stream.flow.to_stream_frame():  # whatever is still buffered
         yield frame
 
 
@@ -175,7 +175,7 @@ def quads_stream_frames(
             yield frame
     if frame := stream.flow.frame_from_dataset():
         yield frame
-    if stream.stream_types.flat and (frame := stream.flow.to_stream_frame()):
+    if frame := stream.flow.to_stream_frame():  # whatever is still buffered
         yield frame
 
 
@@ -217,7 +217,7 @@ def graphs_stream_frames(
 
     if frame := stream.flow.frame_from_dataset():
         yield frame
-    if stream.stream_types.flat and (frame := stream.flow.to_stream_frame()):
+    if frame := stream.flow.to_stream_frame():  # whatever is still buffered
         yield frame
 
 
